@@ -305,8 +305,9 @@ class Profiles:
             'properties': properties.copy(),
             'macros': macros.copy(),
         }
-        # prepare and save properties
-        properties = self._expand_macros(properties, self._usedMacros)
+        # prepare and save properties (in a dictionary of our own, the given
+        # one stays as it is and may be changed or used again by the caller)
+        properties = self._expand_macros(properties.copy(), self._usedMacros)
         self._profilesProperties[profile] = self._compile_regexes(properties)
 
         self.__update_knownNames()
